@@ -492,8 +492,22 @@ fn check_placeholder(has: bool, i: &Instruction) -> Vec<(String, String)> {
             }
         }
     }
-    if let Err(p) = catch(|| i.to_quil_or_debug()) {
-        out.push(("debug-serializer-panics".to_string(), p));
+    // the debug serializer never fails: write(.., true) must return Ok (to_quil_or_debug() swallows the
+    // error and returns the text written so far), and the text of a program must reach its last instruction
+    match catch(|| {
+        let mut buf = String::new();
+        let r = i.write(&mut buf, true);
+        (r, buf)
+    }) {
+        Err(p) => out.push(("debug-serializer-panics".to_string(), p)),
+        Ok((Err(e), buf)) => out.push(("debug-serializer-fails".to_string(), format!("write(.., fall_back_to_debug = true) of {i:?} returned {e:?} after writing {buf:?}"))),
+        Ok((Ok(()), _)) => {}
+    }
+    if let Ok(txt) = catch(|| Program::from_instructions(vec![i.clone(), Instruction::Halt()]).to_quil_or_debug()) {
+        // definitions are listed before the body, so the trailing HALT is the last line in every case
+        if !txt.trim_end().ends_with("HALT") {
+            out.push(("debug-serializer-truncates".to_string(), format!("to_quil_or_debug of the program [{i:?}, HALT] is {txt:?}")));
+        }
     }
     // the same at program level
     match catch(|| {
